@@ -521,6 +521,16 @@ def cert(case, ctx):
             r = X.verify_by_ca_cert(l, "x509_cert_verify_by_ca_cert", der, ca, i2)
             ctx.check(r != 1, "x509_cert_verify_by_ca_cert accepts the signer ID %s for a certificate issued with %s" % (X.id_text(i2), X.id_text(sid)), "cert/verify-by-ca/other-id-accepted")
         vs.append(("x509_cert_verify_by_ca_cert", lambda m: X.verify_by_ca_cert(l, "x509_cert_verify_by_ca_cert", m, ca, sid)))
+    if case["self"]:
+        # a self-signed certificate is verified against itself (gmssl certverify -in root.pem -cacert root.pem): the signature still has to
+        # be the issuer's over exactly these bytes and this signer ID - also when both arguments are the same modified bytes
+        r = X.verify_by_ca_cert(l, "x509_cert_verify_by_ca_cert", der, der, sid)
+        ctx.check(r == 1, "x509_cert_verify_by_ca_cert of a self-signed certificate against itself returns %d" % r, "cert/verify-by-ca/self/rejects-issued")
+        for lab, i2 in other_ids(sid)[:2] + other_ids(sid)[-2:]:
+            r = X.verify_by_ca_cert(l, "x509_cert_verify_by_ca_cert", der, der, i2)
+            ctx.check(r != 1, "x509_cert_verify_by_ca_cert of a self-signed certificate against itself accepts the signer ID %s, issued with %s" %
+                      (X.id_text(i2), X.id_text(sid)), "cert/verify-by-ca/self/other-id-accepted")
+        vs.append(("x509_cert_verify_by_ca_cert against itself", lambda m: X.verify_by_ca_cert(l, "x509_cert_verify_by_ca_cert", m, m, sid)))
     if ok:
         alg_swaps(ctx, "cert", der, vs[0][1], case)
         flip_checks(ctx, "cert", der, vs, case, case["fseed"])
